@@ -498,6 +498,8 @@ template <class L> class LabeledFamily : public IAlgoFamily {
         const G g = buildFromEnc<G>(c.at("g"), order);
         const VertexIndex s = vtx(c.at("s")), t = vtx(c.at("t"));
         const std::string fn = c.at("fn");
+        // length of the predecessor table handed to the reconstruction helpers (>= the graph's size)
+        const size_t tab = c.contains("tab") ? std::max<size_t>(c.at("tab").get<size_t>(), g.getSize()) : g.getSize();
         json before = Obj<G>(g).exact();
         std::string out = classify([&] {
             if (fn == "findVertexPredecessors")
@@ -515,15 +517,15 @@ template <class L> class LabeledFamily : public IAlgoFamily {
             else if (fn == "findPathToVertexFromPredecessors") {
                 // every vertex's predecessor is the source when it is valid, "none" otherwise,
                 // so the reconstruction terminates whatever it does
-                algorithms::Predecessors p{std::vector<size_t>(g.getSize(), 1),
-                                           std::vector<VertexIndex>(g.getSize(),
+                algorithms::Predecessors p{std::vector<size_t>(tab, 1),
+                                           std::vector<VertexIndex>(tab,
                                                s < g.getSize() ? s : (VertexIndex)algorithms::BASEGRAPH_VERTEX_MAX)};
                 algorithms::findPathToVertexFromPredecessors(g, s, t, p);
             } else if (fn == "findMultiplePathsToVertexFromPredecessors") {
-                algorithms::MultiplePredecessors p{std::vector<size_t>(g.getSize(), 1),
-                                                   std::vector<std::list<VertexIndex>>(g.getSize())};
+                algorithms::MultiplePredecessors p{std::vector<size_t>(tab, 1),
+                                                   std::vector<std::list<VertexIndex>>(tab)};
                 if (s < g.getSize())
-                    for (VertexIndex v = 0; v < g.getSize(); ++v)
+                    for (VertexIndex v = 0; v < tab; ++v)
                         if (v != s)
                             p.second[v].push_back(s);
                 algorithms::findMultiplePathsToVertexFromPredecessors(g, s, t, p);
